@@ -101,7 +101,11 @@ func (st *c03State) resolveAll(family, text, op string, vars map[string]interfac
 		var res map[string]interface{}
 		root := st.roots.roots[i]
 		if pi := core.Safe(func() {
-			res = root.ResolveString(text, op, vars)
+			if i == 2 {
+				res = root.ResolveBytes([]byte(text), op, vars) // the byte-slice door for one of the roots
+			} else {
+				res = root.ResolveString(text, op, vars)
+			}
 			_ = ggql.WriteJSONValue(io.Discard, res, -1) // printing the response is part of answering a request
 		}); pi != nil {
 			st.panicked(family, "ResolveString/"+st.roots.names[i], pi, text)
@@ -123,6 +127,30 @@ func (st *c03State) resolveAll(family, text, op string, vars map[string]interfac
 			exe, err := root.ParseExecutableString(text)
 			if err == nil && exe != nil {
 				_ = exe.String()
+			}
+			// the byte-slice door, every node printed on its own, a context handed down (plain and nesting)
+			if exe, err = root.ParseExecutable([]byte(text)); err == nil && exe != nil {
+				var walk func(sels []ggql.Selection, depth int)
+				walk = func(sels []ggql.Selection, depth int) {
+					for _, sel := range sels {
+						_ = sel.String()
+						_ = sel.Line() + sel.Column()
+						_ = len(sel.Directives())
+						if _, isRef := sel.(*ggql.FragRef); !isRef && depth < 64 { // a spread hands out its fragment's selections: cyclic documents parse
+							walk(sel.SelectionSet(), depth+1)
+						}
+					}
+				}
+				for _, op := range exe.Ops {
+					_ = op.String()
+					walk(op.SelectionSet(), 0)
+				}
+				for _, f := range exe.Fragments {
+					_ = f.String()
+					walk(f.SelectionSet(), 0)
+				}
+				exe.SetContextRecursive("ctx")
+				exe.SetContextRecursive(c03Nester{})
 			}
 		}); pi != nil {
 			st.panicked(family, "ParseExecutableString+String", pi, text)
@@ -173,6 +201,9 @@ func (st *c03State) valueCase(family, text string) {
 	c.R.Distinct++
 	if pi := core.Safe(func() {
 		v, err := ggql.ParseValueString(text)
+		if len(text) < 64 {
+			_, _ = ggql.ParseValue(strings.NewReader(text)) // the reader door
+		}
 		if err == nil {
 			// the indented print of a value nested d deep is d*d*indent bytes: beyond 10 000 levels (gigabytes) only the
 			// linear forms are printed - a slow print of an enormous text is not a hang
@@ -1141,3 +1172,8 @@ type C03In struct {
 	Ll  [][]int
 	Any []*C03In
 }
+
+// c03Nester is a context that makes a new context for every field it is handed down to.
+type c03Nester struct{ depth int }
+
+func (n c03Nester) Nest(field *ggql.Field) interface{} { return c03Nester{n.depth + 1} }
